@@ -293,9 +293,34 @@ func (m *ModeManager) drSwitchToSyncRecoverWithLock() error {
 	return nil
 }
 
+// recoverProgress scans the regions and returns the progress together with the state id it was
+// measured under. The configuration may be updated concurrently, which issues a new state id and
+// restarts the scan.
+func (m *ModeManager) recoverProgress() (stateID uint64, progress float32) {
+	m.updateProgress()
+	m.RLock()
+	defer m.RUnlock()
+	return m.drAutoSync.StateID, m.estimateProgress()
+}
+
+// drSwitchToSyncFrom switches to sync only if the state is still the sync_recover state that the
+// recovery progress was measured under.
+func (m *ModeManager) drSwitchToSyncFrom(stateID uint64) error {
+	return m.drSwitchToSyncIf(stateID)
+}
+
 func (m *ModeManager) drSwitchToSync() error {
+	return m.drSwitchToSyncIf(0)
+}
+
+// drSwitchToSyncIf switches to sync state. If fromStateID is not 0, the switch only happens when
+// the current state is sync_recover with that id.
+func (m *ModeManager) drSwitchToSyncIf(fromStateID uint64) error {
 	m.Lock()
 	defer m.Unlock()
+	if fromStateID != 0 && (m.drAutoSync.State != drStateSyncRecover || m.drAutoSync.StateID != fromStateID) {
+		return nil
+	}
 	id, err := m.cluster.AllocID()
 	if err != nil {
 		log.Warn("failed to switch to sync state", zap.String("replicate-mode", modeDRAutoSync), errs.ZapError(err))
@@ -369,7 +394,9 @@ func (m *ModeManager) tickDR() {
 
 	drTickCounter.Inc()
 
+	m.RLock()
 	totalPrimary, totalDr := m.config.DRAutoSync.PrimaryReplicas, m.config.DRAutoSync.DRReplicas
+	m.RUnlock()
 	downPrimary, downDr := m.checkStoreStatus()
 
 	// canSync is true when every region has at least 1 replica in each DC.
@@ -395,12 +422,11 @@ func (m *ModeManager) tickDR() {
 	}
 
 	if m.drGetState() == drStateSyncRecover {
-		m.updateProgress()
-		progress := m.estimateProgress()
+		stateID, progress := m.recoverProgress()
 		drRecoverProgressGauge.Set(float64(progress))
 
 		if progress == 1.0 {
-			m.drSwitchToSync()
+			m.drSwitchToSyncFrom(stateID)
 		} else {
 			m.updateRecoverProgress(progress)
 		}
